@@ -152,6 +152,12 @@ impl WriteAheadLog {
         WalBlock::usable_space(self.block_size as usize) as usize
     }
 
+    /// Free bytes of block zero (verification facade only).
+    #[cfg(feature = "verif")]
+    pub(crate) fn verif_block_zero_space(&self) -> usize {
+        self.header.available_space()
+    }
+
     pub(crate) fn last_lsn(&self) -> Option<Lsn> {
         // The last LSN of the whole log, not only of block zero: records in later blocks need fresh numbers too.
         self.header.metadata().wal_header.global_last_lsn
